@@ -514,4 +514,70 @@ class SimpleGPTarget(Facet):
             mat.cleanup()
 
 
-FACETS = [Budgets(), TargetTranslation(), TargetReachedByOffspring(), SimpleGPTarget()]
+class ParallelEvaluatorBudget(Facet):
+    """Hill climbing (whose neighbourhood is scored as one batch) and GP under a ParallelEvaluator with an
+    evaluation budget n: the number of fitness-function invocations (counted in a file, the calls
+    happen in worker processes) must lie in [n, n + batch)."""
+
+    name = "evaluation_budget_with_parallel_evaluator"
+    fuzz_runs = 0  # every case spawns processes: too slow for a coverage-guided campaign
+
+    def budget(self, tier):
+        return (5, 4) if tier == "quick" else (30, 8)
+
+    def strategy(self, tier):
+        return st.builds(
+            lambda alg, n, k, seed: {"alg": alg, "evals": n, "k": k, "seed": seed},
+            st.sampled_from(["hc", "hc", "gp"]),
+            st.integers(3, 14),
+            st.integers(2, 4),
+            st.integers(0, 2**31),
+        )
+
+    def run(self, case, rec):
+        import os
+        import tempfile
+
+        from geneticengine.evaluation.parallel import ParallelEvaluator
+        from geneticengine.evaluation.tracker import SingleObjectiveProgressTracker
+        from vk.props.c13 import _reset_pathos
+        from vk.props.c15 import make_world
+
+        _reset_pathos()
+        w = make_world(case["seed"])
+        fd, path = tempfile.mkstemp(prefix="vk_c14p_", suffix=".log")
+        os.close(fd)
+        try:
+            def ff(p):
+                with open(path, "a") as f:
+                    f.write("x\n")
+                return float(len(repr(p)) % 7)
+
+            rec.label("alg:" + case["alg"])
+            rec.sample(case, limit=2)
+            try:
+                w.search(case["alg"], case["evals"], case["k"], fitness=ff, tracker=lambda problem: SingleObjectiveProgressTracker(problem, ParallelEvaluator()))
+            except Exception as e:  # noqa: BLE001
+                rec.discard()
+                rec.label("discarded:" + type(e).__name__)
+                return
+            with open(path) as f:
+                total = sum(1 for _ in f)
+            n = case["evals"]
+            batch = max(2, case["k"]) if case["alg"] == "gp" else max(1, case["k"])
+            rec.nontrivial((case["alg"], n, case["k"], case["seed"]))
+            if not (n <= total < n + batch + 1):
+                rec.fail(
+                    f"C14/parallel-evaluator/count-window/{case['alg']}",
+                    f"{case['alg']} with EvaluationBudget({n}), batch size {batch} and a ParallelEvaluator: the fitness function was invoked {total} times (expected {n} <= total < {n + batch + 1})",
+                )
+        finally:
+            w.cleanup()
+            _reset_pathos()
+            try:
+                os.unlink(path)
+            except OSError:
+                pass
+
+
+FACETS = [Budgets(), TargetTranslation(), TargetReachedByOffspring(), SimpleGPTarget(), ParallelEvaluatorBudget()]
